@@ -263,6 +263,36 @@ theorem reachable_exactly_once_partial (u : UInfo) (st : Naming) (direct : Bool)
   intro o ho key
   exact clientMethods_count u direct ops key hn o ho
 
+/-- **C07 end to end over three models** (operations parser `Pog.Ops`, de-duplication + grouping of the endpoints emitter,
+    `ClientVisitor` `Pog.ClientGen`): when no operation raises and the sanitised ids are pairwise distinct, then for EVERY recognised
+    (path, method) operation `o` of the document and EVERY tag `t` of it (or `default`):
+    * `APIClient` has a property named `sanitize_module_name(c)` returning `sanitize_class_name(c) + "Client"`, `c` the canonical
+      spelling of `t`'s tag group (same normalised key as `t`), and
+    * the client of that tag group defines `o`'s method - named `sanitize_method_name(id)` as the selected strategy derives it -
+      exactly as many times as `o` has tags in that group: ONCE when `o`'s tags have pairwise distinct keys.
+    What the theorem does not carry: that the class written to `endpoints/<module>.py` is the one the property imports (the import
+    lines of `client.py` are part of the ClientGen skeleton correspondence), and the hypotheses' complements (F17, F44, F45, F64). -/
+theorem reachable_through_apiclient_partial (u : UInfo) (st : Naming) (direct : Bool) (paths : Paths)
+    (hs : parseSucceeds u st paths = true)
+    (hn : ((parseOps u st paths).1.map (fun o => sanMethod o.opId)).Nodup)
+    (o : IROp) (ho : o ∈ (parseOps u st paths).1) (t : Str) (ht : t ∈ opTags o) :
+    let ops := (parseOps u st paths).1
+    let tagss := ops.map (·.tags)
+    let c := ClientGen.canonicalTag u tagss (normTagKey u t)
+    (sanModule u c, sanClass c ++ kClientSuffix) ∈ (ClientGen.apiClientSkel (ClientGen.tagTuples u tagss)).props ∧
+    normTagKey u c = normTagKey u t ∧
+    (clientMethods u direct ops (normTagKey u t)).count (sanMethod o.opId)
+      = ((opTags o).map (normTagKey u)).count (normTagKey u t) ∧
+    (((opTags o).map (normTagKey u)).Nodup →
+      (clientMethods u direct ops (normTagKey u t)).count (sanMethod o.opId) = 1) := by
+  intro ops tagss c
+  have hts : o.tags ∈ tagss := List.mem_map.mpr ⟨o, ho, rfl⟩
+  have ht' : t ∈ ClientGen.tagsOr o.tags := ht
+  obtain ⟨h1, h2, _⟩ := ClientGenProps.every_tag_group_has_a_property u tagss o.tags hts t ht'
+  have h3 := (reachable_exactly_once_partial u st direct paths hs hn).2.2.2 o ho (normTagKey u t)
+  refine ⟨h1, h2, h3, fun hnd => ?_⟩
+  rw [h3, hnd.count, if_pos (List.mem_map.mpr ⟨t, ht, rfl⟩)]
+
 /-- Corollary in the words of the property: with pairwise distinct tag keys an operation is defined exactly
     once in each of its clients and not at all in any other. -/
 theorem reachable_exactly_once_per_client (u : UInfo) (st : Naming) (direct : Bool) (paths : Paths)
